@@ -11,7 +11,9 @@ import (
 	"fmt"
 	"math/rand"
 	"os"
+	"regexp"
 	"sort"
+	"strconv"
 	"strings"
 	"sync"
 	"time"
@@ -142,6 +144,10 @@ func hostileURLs(r *rand.Rand, path string, n int) []string {
 	return out
 }
 
+var arrayNumRe = regexp.MustCompile(`([\[,]\s*)(-?\d+)`)
+var blockKeyRe = regexp.MustCompile(`"-?\d+,-?\d+,-?\d+"\s*:`)
+var swapRe = regexp.MustCompile(`(-?\d+)\s*,\s*(-?\d+)\s*\]`)
+
 // mutateBody applies one structure-aware mutation.
 func mutateBody(r *rand.Rand, b []byte) ([]byte, string) {
 	if len(b) == 0 {
@@ -150,7 +156,22 @@ func mutateBody(r *rand.Rand, b []byte) ([]byte, string) {
 		return junk, "junk-for-empty"
 	}
 	c := append([]byte{}, b...)
-	switch r.Intn(9) {
+	switch r.Intn(10) {
+	case 9: // JSON stays well formed but becomes internally inconsistent: the last two numbers of an inner array change places
+		// (a span whose end lies before its start, a size before an offset, ...)
+		if loc := swapRe.FindAllSubmatchIndex(c, -1); len(loc) > 0 {
+			m := loc[r.Intn(len(loc))]
+			a, b := string(c[m[2]:m[3]]), string(c[m[4]:m[5]])
+			if a != b {
+				out := append([]byte{}, c[:m[2]]...)
+				out = append(out, b...)
+				out = append(out, c[m[3]:m[4]]...)
+				out = append(out, a...)
+				out = append(out, c[m[5]:]...)
+				return out, "json-numbers-swapped"
+			}
+		}
+		return c[:len(c)/2], "truncate"
 	case 0: // truncate
 		n := r.Intn(len(c))
 		if len(c) > 24 && r.Intn(2) == 0 {
@@ -307,6 +328,20 @@ func (rn *runner) batch(reqs []hreq, bi int) error {
 			for _, g := range groupOf(q.inst) {
 				allowed[g] = true
 			}
+		}
+		if q.method != "GET" && ((q.inst == "lm" && (strings.HasPrefix(q.path, "blocks") || strings.HasPrefix(q.path, "raw/") || strings.HasPrefix(q.path, "ingest-supervoxels"))) ||
+			(q.inst == "img" && (strings.HasPrefix(q.path, "blocks") || strings.HasPrefix(q.path, "raw/"))) || (q.inst == "syn" && strings.HasPrefix(q.path, "blocks"))) {
+			// block streams and voxel boxes name the blocks they carry: a stream that turns out malformed at its second
+			// block is refused after its first block was stored - those are blocks the request DID name, which the
+			// statement does not protect (what it did not name - other instances, other sync groups - stays protected)
+			for _, g := range groupOf(q.inst) {
+				allowed[g] = true
+			}
+		}
+		if q.inst == "roi" && strings.HasPrefix(q.path, "roi") && q.method != "GET" {
+			// POST / DELETE roi names the instance's one datum (the whole region of interest) itself: the statement
+			// protects what a request did NOT name, so a refused one may still have touched it
+			allowed["/roi/"] = true
 		}
 		if q.inst == "" {
 			// a node-level request names the node's note / log itself (the note and log handlers are known to
@@ -493,8 +528,64 @@ func hostileRun(c *drv.Ctx, bin, flav string, seed int64, idx, perEndpoint int) 
 				}
 			}
 		}
-		// the unmutated request itself (well-formed): must never panic
+		// JSON bodies: every position where two numbers of an inner array can change places (first three), once each
+		if len(e.Body) > 0 && (e.Body[0] == '[' || e.Body[0] == '{') {
+			for k, m := range swapRe.FindAllSubmatchIndex(e.Body, 3) {
+				a, b := string(e.Body[m[2]:m[3]]), string(e.Body[m[4]:m[5]])
+				if a == b {
+					continue
+				}
+				out := append([]byte{}, e.Body[:m[2]]...)
+				out = append(out, b...)
+				out = append(out, e.Body[m[3]:m[4]]...)
+				out = append(out, a...)
+				out = append(out, e.Body[m[5]:]...)
+				reqs = append(reqs, hreq{e.Inst, e.Method, e.Path, out, class, fmt.Sprintf("json-numbers-swapped#%d", k), false})
+			}
+		}
+		// binary bodies: each of the first eight 32-bit fields (format headers: counts, lengths, sizes) set to 2^32-1, once each
+		if len(e.Body) >= 8 && e.Body[0] != '[' && e.Body[0] != '{' && e.Method != "GET" {
+			for k := 0; k < 8 && 4*k+4 <= len(e.Body); k++ {
+				out := append([]byte{}, e.Body...)
+				binary.LittleEndian.PutUint32(out[4*k:], 0xFFFFFFFF)
+				if e.Inst == "lm" && strings.HasPrefix(e.Path, "raw/") {
+					break // raw voxel payloads have no header: any bytes are labels
+				}
+				reqs = append(reqs, hreq{e.Inst, e.Method, e.Path, out, class, fmt.Sprintf("u32-field-%d-max", k), false})
+			}
+		}
+		// JSON bodies: every number inside an array moved by +100 / -100 (coordinates land in other blocks than the
+		// structure around them says, ids and counts change)
+		if len(e.Body) > 0 && (e.Body[0] == '[' || e.Body[0] == '{') && arrayNumRe.Match(e.Body) {
+			for k, d := range []int64{100, -100} {
+				out := arrayNumRe.ReplaceAllFunc(e.Body, func(m []byte) []byte {
+					sub := arrayNumRe.FindSubmatch(m)
+					v, err := strconv.ParseInt(string(sub[2]), 10, 64)
+					if err != nil {
+						return m
+					}
+					return []byte(string(sub[1]) + strconv.FormatInt(v+d, 10))
+				})
+				reqs = append(reqs, hreq{e.Inst, e.Method, e.Path, out, class, fmt.Sprintf("json-array-numbers-shifted#%d", k), false})
+			}
+		}
+		// JSON objects keyed by a block coordinate ("x,y,z": [...]): the key no longer matches what is filed under it
+		if len(e.Body) > 0 && e.Body[0] == '{' {
+			if m := blockKeyRe.FindSubmatchIndex(e.Body); m != nil {
+				for k, nk := range []string{`"0,0,0":`, `"-1,0,7":`} {
+					out := append([]byte{}, e.Body[:m[0]]...)
+					out = append(out, nk...)
+					out = append(out, e.Body[m[1]:]...)
+					reqs = append(reqs, hreq{e.Inst, e.Method, e.Path, out, class, fmt.Sprintf("json-block-key-changed#%d", k), false})
+				}
+			}
+		}
+		// the unmutated request itself (well-formed): must never panic, and must still be answered after whatever
+		// malformed requests of its class came before it (twice, at two random places of the shuffled list)
 		reqs = append(reqs, hreq{e.Inst, e.Method, e.Path, e.Body, class, "valid", true})
+		if e.Method != "GET" {
+			reqs = append(reqs, hreq{e.Inst, e.Method, e.Path, e.Body, class, "valid", true})
+		}
 	}
 	r.Shuffle(len(reqs), func(i, j int) { reqs[i], reqs[j] = reqs[j], reqs[i] })
 	const bsz = 20
@@ -505,6 +596,51 @@ func hostileRun(c *drv.Ctx, bin, flav string, seed int64, idx, perEndpoint int) 
 		}
 		if err := rn.batch(reqs[i:j], i/bsz); err != nil {
 			return fmt.Errorf("[%s] batch %d: %v", flav, i/bsz, err)
+		}
+	}
+	// last: the well-formed maintenance requests that rebuild derived state from what is stored now (they were kept out
+	// of the batches because they restructure the target) - whatever the hostile requests left behind, these must be
+	// answered and must not take the process down, also not from their background goroutines
+	for _, m := range []struct{ inst, path string }{{"syn", "reload"}, {"lsz", "reload"}} {
+		if !rn.wd.Has(m.inst) {
+			continue
+		}
+		url := "/api/node/" + rn.target + "/" + m.inst + "/" + m.path
+		desc := "POST " + url + " [maintenance after the hostile batches]"
+		resp, err := rn.w.Post(url, nil)
+		c.Case(fmt.Sprintf("%s|maintenance|%s|%d", flav, m.inst+"/"+m.path, idx), true)
+		wit := map[string]interface{}{"flavour": flav, "url": url}
+		died := func(when string) bool {
+			if !rn.w.Dead() {
+				return false
+			}
+			fatal := drv.FatalInStderr(rn.w.Stderr())
+			c.Violation("server-died:"+m.inst+":"+m.path+":"+crashSite(fatal), fmt.Sprintf("[%s] the server process died %s %s: %s", flav, when, desc, drv.Trunc(fatal, 700)), wit)
+			return true
+		}
+		if err != nil {
+			if err == drv.ErrWatchdog {
+				c.Inconclusive("request outlived the watchdog: " + desc)
+			} else if !died("while serving") {
+				return fmt.Errorf("maintenance request: %v", err)
+			}
+			if err := rn.restart(); err != nil {
+				return err
+			}
+			continue
+		}
+		if resp.Panicked() {
+			c.Violation("recovered-panic:"+m.inst+":"+m.path+":"+panicSite(string(resp.Body)), fmt.Sprintf("[%s] %s was answered 500 by the recover handler: %s", flav, desc, drv.Trunc(string(resp.Body), 300)), wit)
+		}
+		serr := rn.w.Settle()
+		// the reload runs in a goroutine of its own: give it until the instance reports idle, then probe
+		if pr, err := rn.w.Get("/api/node/" + rn.target + "/kv/info"); serr != nil || err != nil || pr.Status != 200 {
+			if !died("in the background after") {
+				c.Inconclusive(fmt.Sprintf("after %s: settle %v, probe %v", desc, serr, err))
+			}
+			if err := rn.restart(); err != nil {
+				return err
+			}
 		}
 	}
 	c.Count("hostile_requests_"+flav, len(reqs))
